@@ -232,7 +232,12 @@ pub struct St {
     pub last_op: Vec<String>,
     pub inconclusive: bool,
     detect_races: bool,
-    fl_snapshot: Option<FlFn>,
+    /// number of live arena values (thread values, thread clones, owned buffers incl. those in mailboxes)
+    holders: usize,
+    refs_addr: usize,
+    freed: bool,
+    arena_ptrs: Vec<usize>,
+    pub unmount_thread: Option<usize>,
 }
 
 #[derive(Clone)]
@@ -296,6 +301,9 @@ impl St {
         }
     }
     fn mem(&self) -> &[u8] {
+        if self.freed {
+            return &[];
+        }
         unsafe { std::slice::from_raw_parts(self.base as *const u8, self.cap) }
     }
     fn all_stalled(&self) -> bool {
@@ -316,11 +324,17 @@ impl St {
     }
     /// raw bounded walk over the list as it is reachable from the sentinel (only valid for the unified layout)
     fn freelist_raw(&self) -> Vec<(u32, u32, u32)> {
-        self.fl_snapshot.as_ref().map(|f| f()).unwrap_or_default()
+        if self.freed {
+            return vec![];
+        }
+        // an unfinished thread still owns its arena value: walk through that one
+        match self.unfinished().first() {
+            Some(u) => unsafe { &*(self.arena_ptrs[*u] as *const Arena) }.verif_freelist(256).nodes,
+            None => vec![],
+        }
     }
 }
 
-pub type FlFn = Box<dyn Fn() -> Vec<(u32, u32, u32)> + Send>;
 
 pub struct RunB {
     pub classes: BTreeSet<&'static str>,
@@ -421,6 +435,23 @@ fn after_event(sh: &Shared, t: usize, e: &Event) {
     if e.kind == Kind::Load && in_arena && width == 8 && (e.old >> 32) == 0 {
         st.saw_marked = true;
     }
+    // C13: the reference count always equals the number of live arena values
+    if e.addr == st.refs_addr && st.refs_addr != 0 {
+        let h = st.holders as u64;
+        let ok = match e.kind {
+            Kind::FetchAdd | Kind::FetchSub => e.old == h,
+            // the dropping thread's own acquire load after its decrement sees one less
+            Kind::Load => e.old == h || e.old + 1 == h,
+            _ => true,
+        };
+        if !ok {
+            let doing = st.last_op[t].clone();
+            st.fail(viol!("C13", "refs-mismatch", "thread {t} {:?} on the reference count observed {} while {h} arena values are alive (doing: {doing})", e.kind, e.old));
+            sh.cv.notify_all();
+            return;
+        }
+        st.classes.insert("refcount-checked-under-schedule");
+    }
     // C02: the arena never writes into a live range
     if in_arena && e.wrote {
         let (lo, hi) = (off, off + width);
@@ -499,6 +530,14 @@ fn mem_event(sh: &Shared, t: usize, e: &Event) {
     let mut st = lock(sh);
     if e.kind == Kind::Unmount {
         st.unmounts += 1;
+        st.unmount_thread = Some(t);
+        if st.holders != 1 {
+            let h = st.holders;
+            let doing = st.last_op[t].clone();
+            st.fail(viol!("C13", "unmount-while-holders", "thread {t} releases the backing memory while {h} arena values are alive (doing: {doing})"));
+            sh.cv.notify_all();
+            return;
+        }
         if st.detect_races && e.addr == st.base {
             let cap = st.cap;
             if let Some(r) = st.race.on_write(t, 0, cap, false, "release of the backing memory") {
@@ -506,6 +545,8 @@ fn mem_event(sh: &Shared, t: usize, e: &Event) {
                 sh.cv.notify_all();
             }
         }
+        st.freed = true;
+        st.classes.insert("unmounted-by-a-scheduled-thread");
         return;
     }
     let in_arena = e.addr >= st.base && e.addr < st.base + st.cap;
@@ -685,6 +726,9 @@ fn run_prog(sh: &Arc<Shared>, t: usize, arena: &'static Arena, prog: &[POp], clo
                 }
                 unsafe { std::ptr::copy_nonoverlapping(bytes.as_ptr(), (st.base + off) as *mut u8, cap) };
                 st.live.push(LiveB { id, tid: t, off, cap, expect: bytes });
+                if owned {
+                    st.holders += 1;
+                }
                 if payload % 4 != 0 && cap >= 8 {
                     st.classes.insert("forged-payload");
                 }
@@ -700,6 +744,9 @@ fn run_prog(sh: &Arc<Shared>, t: usize, arena: &'static Arena, prog: &[POp], clo
                 release_check(sh, t, &th.info);
                 if let Some(obj) = th.obj {
                     drop(obj);
+                    if th.owned {
+                        lock(sh).holders -= 1;
+                    }
                 }
             }
             POp::Discard => {
@@ -708,12 +755,15 @@ fn run_prog(sh: &Arc<Shared>, t: usize, arena: &'static Arena, prog: &[POp], clo
             POp::CloneArena => {
                 if clones.len() < 3 {
                     clones.push(Box::new(arena.clone()));
-                    lock(sh).classes.insert("thread-cloned-arena");
+                    let mut st = lock(sh);
+                    st.holders += 1;
+                    st.classes.insert("thread-cloned-arena");
                 }
             }
             POp::DropClone => {
                 if let Some(c) = clones.pop() {
                     drop(c);
+                    lock(sh).holders -= 1;
                 }
             }
             POp::Send { h, to } => {
@@ -764,12 +814,25 @@ fn run_prog(sh: &Arc<Shared>, t: usize, arena: &'static Arena, prog: &[POp], clo
             st.classes.insert("owned-buffer-received");
         }
     }
+    // what this thread still holds (and, for thread 0, what the pre-history left behind) must be intact:
+    // the owner's last look before its arena value goes away
+    let mine: Vec<LiveInfo> = {
+        let st = lock(sh);
+        st.live.iter().filter(|l| l.tid == t || (t == 0 && l.tid == MAIN)).map(|l| LiveInfo { id: l.id, off: l.off, cap: l.cap }).collect()
+    };
+    let held_owned: Vec<u32> = hs.iter().filter(|h| h.owned).map(|h| h.info.id).collect();
+    for info in &mine {
+        if !held_owned.contains(&info.id) {
+            release_check(sh, t, info);
+        }
+    }
     for th in hs.drain(..) {
         if let Some(mut o) = th.obj {
             if th.owned {
                 // an owned buffer dropped by a thread other than its creator releases memory and a reference
                 release_check(sh, t, &th.info);
                 drop(o);
+                lock(sh).holders -= 1;
             } else {
                 o.detach();
                 drop(o);
@@ -778,6 +841,7 @@ fn run_prog(sh: &Arc<Shared>, t: usize, arena: &'static Arena, prog: &[POp], clo
     }
     while let Some(c) = clones.pop() {
         drop(c);
+        lock(sh).holders -= 1;
     }
 }
 
@@ -805,9 +869,22 @@ fn release_check(sh: &Arc<Shared>, t: usize, info: &LiveInfo) {
 
 pub struct OptsB {
     pub detect_races: bool,
+    pub owner: &'static str,
 }
 
 pub fn run_case_b(case: &CaseB, o: &OptsB) -> RunB {
+    crate::enga::set_owner(Some(o.owner));
+    let r = run_case_b_inner(case, o);
+    let f = crate::enga::take_foreign();
+    crate::enga::set_owner(None);
+    let mut r = r;
+    if r.viol.is_none() {
+        r.viol = f;
+    }
+    r
+}
+
+fn run_case_b_inner(case: &CaseB, o: &OptsB) -> RunB {
     let mut out = RunB { classes: BTreeSet::new(), viol: None, steps: 0, switches: 0, cas_failures: 0, freelist_threads: 0, saw_marked: false, owner_changes: 0, inconclusive: false };
     let n = case.progs.len().clamp(1, 4);
     // 1. arena + pre-history on the main thread (Engine A, unscheduled)
@@ -834,10 +911,26 @@ pub fn run_case_b(case: &CaseB, o: &OptsB) -> RunB {
         w.leak();
         return out;
     }
+    verif::set_hook(None);
     let arena0 = w.a();
     let base = arena0.raw_ptr() as usize;
     let cap = arena0.capacity();
+    let data_offset = arena0.data_offset();
     let nodes = arena0.verif_freelist(64).nodes.len();
+    // where the reference count lives: observe one refs() load
+    let refs_addr = {
+        let cell = std::rc::Rc::new(std::cell::Cell::new(0usize));
+        let c2 = cell.clone();
+        verif::set_hook(Some(Box::new(move |e: &Event| {
+            if e.kind == Kind::Load && e.before {
+                c2.set(e.addr);
+            }
+            Action::Proceed
+        })));
+        let _ = arena0.refs();
+        verif::set_hook(None);
+        cell.get()
+    };
     let lbound = 8 * (nodes as u32 + 2 + case.progs.iter().map(|p| p.len() as u32).sum::<u32>()) * cfg.retries.max(1) as u32 + 64;
     let mut live: Vec<LiveB> = Vec::new();
     let mut next_id = 1u32;
@@ -847,6 +940,18 @@ pub fn run_case_b(case: &CaseB, o: &OptsB) -> RunB {
             next_id += 1;
         }
     }
+    // thread 0 gets the original arena value, the others a clone each; the main thread keeps none, so the
+    // backing memory is released by whichever thread drops the last value, under the scheduler
+    let ix0 = w.first();
+    let a0: Box<Arena> = w.arenas[ix0].take().unwrap();
+    w.hs.clear();
+    w.leak();
+    let mut values: Vec<Box<Arena>> = Vec::new();
+    for _ in 1..n {
+        values.push(Box::new((*a0).clone()));
+    }
+    values.insert(0, a0);
+    let arena_ptrs: Vec<usize> = values.iter().map(|b| &**b as *const Arena as usize).collect();
     let st = St {
         n,
         current: MAIN,
@@ -864,7 +969,7 @@ pub fn run_case_b(case: &CaseB, o: &OptsB) -> RunB {
         live,
         base,
         cap,
-        data_offset: arena0.data_offset(),
+        data_offset,
         lbound,
         force: None,
         mark_preempt: case.mark_preempt,
@@ -884,15 +989,13 @@ pub fn run_case_b(case: &CaseB, o: &OptsB) -> RunB {
         last_op: vec![String::new(); n],
         inconclusive: false,
         detect_races: o.detect_races,
-        fl_snapshot: None,
+        holders: n,
+        refs_addr,
+        freed: false,
+        arena_ptrs,
+        unmount_thread: None,
     };
     let sh = Arc::new(Shared { m: Mutex::new(st), cv: Condvar::new() });
-    {
-        // snapshot closure for diagnostics; the arena outlives the threads (World holds a value)
-        let a: &'static Arena = arena0;
-        let p = a as *const Arena as usize;
-        lock(&sh).fl_snapshot = Some(Box::new(move || unsafe { &*(p as *const Arena) }.verif_freelist(256).nodes));
-    }
     // main's existing writes (pre-history payloads) happen-before the threads: spawn edge
     {
         let mut st = lock(&sh);
@@ -905,11 +1008,10 @@ pub fn run_case_b(case: &CaseB, o: &OptsB) -> RunB {
     }
     // 2. threads
     let mut joins = Vec::new();
-    for t in 0..n {
-        let clone = Box::new(arena0.clone());
+    for (t, value) in values.into_iter().enumerate() {
         let prog = case.progs[t].clone();
         let sh2 = sh.clone();
-        let cp = Box::into_raw(clone) as usize;
+        let cp = Box::into_raw(value) as usize;
         joins.push(std::thread::spawn(move || {
             let clone: Box<Arena> = unsafe { Box::from_raw(cp as *mut Arena) };
             let aref: &'static Arena = unsafe { &*(&*clone as *const Arena) };
@@ -926,24 +1028,22 @@ pub fn run_case_b(case: &CaseB, o: &OptsB) -> RunB {
             let mut clones: Vec<Box<Arena>> = Vec::new();
             let mut hs: Vec<TH> = Vec::new();
             let aborted_early = lock(&sh2).abort;
+            let mut clone = Some(clone);
             let r = if aborted_early {
                 Err(Box::new(Abort) as Box<dyn std::any::Any + Send>)
             } else {
                 catch_unwind(AssertUnwindSafe(|| {
                     run_prog(&sh2, t, aref, &prog, &mut clones, &mut hs);
                     // the thread's own arena value goes last
-                    lock(&sh2).last_op[t] = "drop of the thread's arena value".into();
+                    {
+                        let mut st = lock(&sh2);
+                        st.last_op[t] = "drop of the thread's arena value".into();
+                        st.op_steps[t] = 0;
+                    }
+                    drop(clone.take());
+                    lock(&sh2).holders -= 1;
                 }))
             };
-            let ok = r.is_ok();
-            if ok {
-                let r2 = catch_unwind(AssertUnwindSafe(|| drop(clone)));
-                if r2.is_err() {
-                    // aborted while dropping
-                }
-            } else {
-                std::mem::forget(clone);
-            }
             verif::set_hook(None);
             if let Err(p) = r {
                 if !p.is::<Abort>() {
@@ -955,6 +1055,7 @@ pub fn run_case_b(case: &CaseB, o: &OptsB) -> RunB {
                 // never run arena code again for this case
                 std::mem::forget(hs);
                 std::mem::forget(clones);
+                std::mem::forget(clone);
             }
             let mut st = lock(&sh2);
             st.finished[t] = true;
@@ -992,33 +1093,47 @@ pub fn run_case_b(case: &CaseB, o: &OptsB) -> RunB {
     for j in joins {
         let _ = j.join();
     }
-    // 4. final checks on the quiescent arena
-    let mut st = lock(&sh);
-    st.fl_snapshot = None;
-    // join edge
-    for t in 0..n {
-        let v = st.race.vc[t].clone();
-        let mi = st.race.ix(MAIN);
-        join(&mut st.race.vc[mi], &v);
-    }
-    if st.viol.is_none() && !st.abort {
-        let mem = st.mem().to_vec();
-        let mut bad = None;
-        for l in &st.live {
-            if mem[l.off..l.off + l.cap] != l.expect[..] {
-                bad = Some(viol!("C02", "bytes-changed", "range #{} [{}, {}) (thread {}) does not hold its bytes at the end of the run", l.id, l.off, l.off + l.cap, if l.tid == MAIN { -1 } else { l.tid as i64 }));
-                break;
+    // 4. after the join: buffers still sitting in a mailbox are dropped by the main thread; if they hold
+    // the last arena values the backing memory is released here
+    let aborted = { let st = lock(&sh); st.abort || st.viol.is_some() };
+    if !aborted {
+        let leftovers: Vec<(SendBox, LiveInfo, Vec<u32>)> = lock(&sh).mailbox.iter_mut().flat_map(|m| m.drain(..)).collect();
+        if !leftovers.is_empty() {
+            let sh3 = sh.clone();
+            verif::set_hook(Some(Box::new(move |e: &Event| {
+                if e.kind == Kind::Unmount {
+                    let mut st = lock(&sh3);
+                    st.unmounts += 1;
+                    st.freed = true;
+                }
+                Action::Proceed
+            })));
+            let k = leftovers.len();
+            drop(leftovers);
+            verif::set_hook(None);
+            let mut st = lock(&sh);
+            st.holders -= k;
+            st.classes.insert("mailbox-leftovers-dropped-by-main");
+        }
+        let mut st = lock(&sh);
+        if st.viol.is_none() {
+            let (u, h) = (st.unmounts, st.holders);
+            if u != 1 || h != 0 {
+                st.fail(viol!("C13", "unmount-count", "after every arena value was dropped the backing memory had been released {u} time(s) (model: {h} values still alive)"));
             }
         }
-        if let Some(v) = bad {
-            st.fail(v);
-        }
-        if st.unmounts != 0 && st.viol.is_none() {
-            let u = st.unmounts;
-            st.fail(viol!("C13", "unmount-count", "backing memory released {u} time(s) while the creating arena value is still alive"));
+    } else {
+        // leak whatever is left in mailboxes
+        let leftovers: Vec<(SendBox, LiveInfo, Vec<u32>)> = lock(&sh).mailbox.iter_mut().flat_map(|m| m.drain(..)).collect();
+        std::mem::forget(leftovers);
+    }
+    let mut st = lock(&sh);
+    out.classes = st.classes.clone();
+    if let Some(t) = st.unmount_thread {
+        if t != 0 {
+            out.classes.insert("last-drop-on-non-creator-thread");
         }
     }
-    out.classes = st.classes.clone();
     out.viol = st.viol.take();
     out.steps = st.steps;
     out.switches = st.switches;
@@ -1027,37 +1142,5 @@ pub fn run_case_b(case: &CaseB, o: &OptsB) -> RunB {
     out.saw_marked = st.saw_marked;
     out.owner_changes = st.owner_changes;
     out.inconclusive = st.inconclusive;
-    let aborted = st.abort;
-    drop(st);
-    if aborted || out.viol.is_some() {
-        w.leak();
-    } else {
-        // drop the last arena value: the backing memory must be released exactly once, now
-        let before = lock(&sh).unmounts;
-        let sh3 = sh.clone();
-        verif::set_hook(Some(Box::new(move |e: &Event| {
-            if e.kind == Kind::Unmount {
-                lock(&sh3).unmounts += 1;
-            }
-            Action::Proceed
-        })));
-        w.hs.clear();
-        // buffers still sitting in a mailbox are dropped by the main thread (after the join edge)
-        let leftovers: Vec<(SendBox, LiveInfo, Vec<u32>)> = lock(&sh).mailbox.iter_mut().flat_map(|m| m.drain(..)).collect();
-        drop(leftovers);
-        let r = w.close_all();
-        verif::set_hook(None);
-        let after = lock(&sh).unmounts;
-        if let Some(p) = &w.path {
-            let _ = std::fs::remove_file(p);
-        }
-        w.path = None;
-        w.leak();
-        if let Err(v) = r {
-            out.viol = Some(v);
-        } else if after != before + 1 {
-            out.viol = Some(viol!("C13", "unmount-count", "dropping the last arena value released the backing memory {} time(s)", after - before));
-        }
-    }
     out
 }
